@@ -50,21 +50,29 @@ Definition logical (fs : list descriptor) (st : scte) : splice_info :=
 Definition is_foreign (d : descriptor) : Prop := match d with Foreign _ _ => True | Seg _ _ => False end.
 
 Definition normal_comp (imm : bool) (c : component) : Prop :=
-  c_tag c < 256 /\ (imm = false -> c_has_pts c = true /\ c_pts c < 8589934592).
+  c_tag c < 256 /\ (imm = false -> c_has_pts c = true -> c_pts c < 8589934592).
 Definition normal_insert (i : insert) : Prop :=
   i_event_id i < 4294967296 /\
   (i_cancel i = false ->
-     (i_program i = true -> i_immediate i = false -> i_has_pts i = true /\ i_pts i < 8589934592) /\
+     (i_program i = true -> i_immediate i = false -> i_has_pts i = true -> i_pts i < 8589934592) /\
      (i_program i = false -> Forall (normal_comp (i_immediate i)) (i_components i) /\ len (i_components i) < 256) /\
      (i_has_duration i = true -> i_duration i < 8589934592) /\
      i_unique_program_id i < 65536 /\ i_avail_num i < 256 /\ i_avails_expected i < 256).
 Definition normal_cmd (c : Scte.command) : Prop :=
   match c with
   | CNull => True
-  | CTime h p => h = true /\ p < 8589934592     (* the decoder refuses a time_signal without time; 0x7E otherwise *)
+  | CTime h p => h = true -> p < 8589934592
   | CInsert i => normal_insert i
   end.
 (* lenok: the descriptor fits its 8-bit descriptor_length *)
+(* the commands the decoder accepts back: a time_signal and a timed program splice_insert must carry their time *)
+Definition timed_cmd (c : Scte.command) : Prop :=
+  match c with
+  | CNull => True
+  | CTime h _ => h = true
+  | CInsert i => i_cancel i = false -> i_program i = true -> i_immediate i = false -> i_has_pts i = true
+  end.
+
 Definition normal_desc_gen (lenok : Prop) (d : segdesc) : Prop :=
   d_event_id d < 4294967296 /\
   (d_cancel d = false ->
@@ -84,7 +92,7 @@ Definition normal_desc (d : segdesc) : Prop := normal_desc_gen (len (seg_data d)
 
 (* the states on which UpdateData is the canonical serialiser (and the decoder an inverse):
    every field within its wire width, the encoder's 10-bit section_length sufficient, the
-   UPID / MID exclusivity maintained by the setters, every splice_time() that is emitted carries a time *)
+   UPID / MID exclusivity and element lengths as maintained by the setters *)
 Definition normal (fs : list descriptor) (st : scte) : Prop :=
   s_tid st < 256 /\ s_protocol st < 256 /\ s_enc_alg st < 64 /\ s_cw st < 256 /\ s_tier st < 4096 /\
   s_pts st < 8589934592 /\ cmd_pts (s_cmd st) < 8589934592 /\
